@@ -75,8 +75,8 @@ func contains(l []string, s string) bool {
 
 func drawOwCase(w *simrt.Tape) *owCase {
 	c := &owCase{in: "/sim/model.h5"}
-	c.G = 1 + w.Choose(5)
-	c.T = 1 + w.Choose(12)
+	c.G = sizeDraw(w, 5, 9)
+	c.T = sizeDraw(w, 12, 50)
 	nModels := 1 + w.Choose(4)
 	pool := append(append([]string{}, linkDest...), sourceOnly...)
 	used := map[string]bool{}
@@ -95,6 +95,9 @@ func drawOwCase(w *simrt.Tape) *owCase {
 		first := true
 		for g := 0; g < c.G; g++ {
 			n := w.Choose(5) // 0..4 nodes: empty batches occur
+			if w.Choose(16) == 15 {
+				n = 5 + w.Choose(8)
+			}
 			if m.maxDim > 0 && g == c.G-1 && m.total == 0 && n == 0 {
 				n = 1 // a table model needs at least one node (FindDimensions takes a maximum over its parameter matrix)
 			}
